@@ -668,7 +668,7 @@ fn parse_one(ctx: &mut Ctx, b: &[u8]) -> Option<PRec> {
     ctx.call("parse_dtls_plaintext_record", b.len(), 0, || {
         let (out, v) = split(parse_dtls_plaintext_record(b));
         match v {
-            Some((rem, r)) => {
+            Some((rem, r)) => crate::guard::unmetered(|| {
                 let _ = format!("{:?}", r);
                 let mut sl = Slices::new();
                 for m in &r.messages {
@@ -687,7 +687,7 @@ fn parse_one(ctx: &mut Ctx, b: &[u8]) -> Option<PRec> {
                     msgs: r.messages.iter().map(|m| image(b, m)).collect(),
                     slices_outside: outside,
                 }
-            }
+            }),
             None => PRec { out, ctype: 0, ver: 0, epoch: 0, seq: 0, len: 0, rem: (-1, 0), msgs: vec![], slices_outside: None },
         }
     })
@@ -790,14 +790,14 @@ pub fn execute(scn: &Scenario, ctx: &mut Ctx) {
             let (out, v) = split(parse_dtls_plaintext_records(bytes));
             (
                 out,
-                v.map(|(rem, rs)| {
+                v.map(|(rem, rs)| crate::guard::unmetered(|| {
                     let _ = format!("{:?}", rs);
                     let hdrs: Vec<(u8, u16, u16, u64, u16, Vec<PMsg>)> = rs
                         .iter()
                         .map(|r| (r.header.content_type.0, r.header.version.0, r.header.epoch, r.header.sequence_number, r.header.length, r.messages.iter().map(|m| { let mut p = image(bytes, m); p.frag = None; p }).collect()))
                         .collect();
                     (rel(bytes, rem), hdrs)
-                }),
+                })),
             )
         });
         if let Some((out, v)) = many {
